@@ -515,26 +515,33 @@ func EncryptFragment(f *Fragment, key, iv []byte, ipd *InitProtectData) error {
 			return fmt.Errorf("unknown scheme %s", ipd.Scheme)
 		}
 	}
-	moof := f.Moof
+	setSencSaioOffset(f.Moof)
+	return nil
+}
+
+// setSencSaioOffset sets the saio offset of the first traf to the start of the sample data in its senc box.
+// It must be called again when boxes preceding the senc box change size (trun optimization).
+func setSencSaioOffset(moof *MoofBox) {
 	offset := uint64(8)
-	sencDataOffset := uint64(0) // Offset to the senc box data to be set in saio
 	for _, c := range moof.Children {
 		if c.Type() != "traf" {
 			offset += c.Size()
 			continue
 		}
 		traf := c.(*TrafBox)
+		if traf.Saio == nil || len(traf.Saio.Offset) == 0 {
+			return
+		}
 		offset += 8
 		for _, tc := range traf.Children {
 			if tc.Type() == "senc" {
-				sencDataOffset = offset + 12 + 4 // 12 for full box and 4 for sample count
+				traf.Saio.Offset[0] = int64(offset + 12 + 4) // 12 for full box and 4 for sample count
+				return
 			}
 			offset += tc.Size()
 		}
-		break
+		return
 	}
-	saio.Offset[0] = int64(sencDataOffset)
-	return nil
 }
 
 type DecryptInfo struct {
